@@ -33,6 +33,7 @@ Diff(e, r) ==
   \cup (IF e.rt.proc # r.rt.proc THEN {"rt.proc"} ELSE {})
   \cup (IF e.rt.idleAt # r.rt.idleAt THEN {"rt.idleAt"} ELSE {})
   \cup (IF e.gen # {<<x.job, x.h>> : x \in Rng(r.gen)} THEN {"generated-config"} ELSE {})
+  \cup (IF e.loaded # {<<x.job, x.h>> : x \in Rng(r.loaded)} THEN {"loaded-config"} ELSE {})
 
 \* /samples/ after a successful scrape of an assigned target: the per-metric counts add up to
 \* the totals of the payload (C14)
